@@ -415,7 +415,7 @@ def corpus_variants(pid: str, ctx: Ctx) -> list:
     return out
 
 
-UNDECIDABLE_SEEDS = ("C14d", "C20g")
+UNDECIDABLE_SEEDS = ("C14d", "C20g", "C20h")
 
 
 def run_selftest(pid: str, mod, ctx: Ctx, repo: str) -> dict:
